@@ -164,6 +164,13 @@ func (v *Vue) evaluateNodeAsElement(ctx VueContext, node *html.Node, depth int) 
 
 	// Special handling for template tags: evaluate bound attributes and set them in current scope
 	if node.Data == "template" {
+		// The chosen branch is an include: it is rendered like an unconditional one.
+		if helpers.HasAttr(node, "include") {
+			branch := *node
+			branch.Attr = helpers.FilterAttrs(helpers.FilterAttrs(helpers.FilterAttrs(node.Attr, "v-if"), "v-else-if"), "v-else")
+			return v.evalTemplate(ctx, []*html.Node{&branch}, ctx.stack.EnvMap(), depth+1)
+		}
+
 		// For templates, bound attributes modify the current scope (don't create new scope)
 		for _, attr := range node.Attr {
 			// Check for bound attributes (: or v-bind:)
